@@ -28,7 +28,8 @@ class BlockSpec:
 
 class Harness:
     def __init__(self, w, ns, n, variables, blocks, wd, init='all', stack=None, extra_decl='', build='verif', tag='h'):
-        """variables: list of (name, cells) - each a hex.vec / bit.vec of `cells` cells (ns = 'hex' | 'bit')."""
+        """variables: list of (name, cells[, bits per cell[, (boundary_bits, cell index)]]) - each a hex.vec / bit.vec of `cells` cells;
+        the optional 4th element places cell `index` of the variable at a multiple of `boundary_bits`."""
         from .bind import bind
         from .asm import assemble_text
         from flipjump.fjm.fjm_reader import Reader
@@ -49,7 +50,14 @@ class Harness:
         else:
             lines.append('stl.startup')
         lines.append('stl.loop')
+        self.var_align = {v[0]: v[3] for v in variables if len(v) > 3 and v[3]}
         for name, cells in self.variables:
+            if name in self.var_align:
+                # place the variable so that its cell `idx` starts at a multiple of `boundary` bits (a carry boundary of pointer arithmetic)
+                boundary, idx = self.var_align[name]
+                ops = boundary // (2 * w)
+                lines.append(f'pad {ops}')
+                lines.append(f'    hex.vec {ops - idx}, 0')
             lines.append(f'{name}:')
             decl_ns = 'bit' if self.var_bits[name] == 1 else 'hex'
             lines.append(f'    {decl_ns}.vec {cells}, 0')
